@@ -88,11 +88,21 @@ var keepAlive []interface{}
 
 func ptrOf(p interface{}) uintptr { return reflect.ValueOf(p).Pointer() }
 
-// drain empties the pool of one type (objects left by earlier histories)
+// drain empties the pool of one type (objects left by earlier histories).  An
+// object the harness never released may sit on top of released ones (a pack a
+// reader entry point put back on its own): stop only after several in a row.
 func drain(code uint8) error {
+	fresh := 0
 	for i := 0; i < 100000; i++ {
 		p := udp.CreatePack(code, udp.UDP_PACK_VERSION)
-		if p == nil || !releasedPtr[ptrOf(p)] {
+		if p == nil {
+			return nil
+		}
+		if releasedPtr[ptrOf(p)] {
+			fresh = 0
+			continue
+		}
+		if fresh++; fresh >= 3 {
 			return nil
 		}
 	}
@@ -368,6 +378,7 @@ func carriedSet(pt ptype, ver int32) ([]string, string) {
 	if msg != "" {
 		return nil, msg
 	}
+	base = core.Cp(base) // the probe must not depend on what later encoder calls do to a returned slice
 	carried := []string{}
 	for i, f := range fieldsOf(newPack(pt, ver)) {
 		if f.kind == "opaque" {
@@ -390,7 +401,11 @@ var trailer = []byte{0xA5, 0x5A, 0xA5, 0x5A, 0xA5, 0x5A, 0xA5, 0x5A, 0xA5, 0x5A,
 
 // roundTrip fills a pack, writes it with the real writer and reads it with a
 // pack created at the same version; one W and one R event.
-func roundTrip(c *core.Ctx, t *core.Trace, r *rand.Rand, pt ptype, ver int32, carried []string, bigOne bool) {
+// lg: additionally give one text field a long periodic value of exactly lg.n
+// bytes, recorded in compact form (the event then carries no bytes).
+type longSpec struct{ idx, n int }
+
+func roundTrip(c *core.Ctx, t *core.Trace, r *rand.Rand, pt ptype, ver int32, carried []string, bigOne bool, lg *longSpec) {
 	w := newPack(pt, ver)
 	fs := fieldsOf(w)
 	bigIdx := -1
@@ -408,14 +423,36 @@ func roundTrip(c *core.Ctx, t *core.Trace, r *rand.Rand, pt ptype, ver int32, ca
 	for i, f := range fs {
 		setRandom(r, pt.name, f, i == bigIdx)
 	}
-	wsnap := snapshot(w) // before Write: a writer may normalise its own fields
+	longf := map[string]bool{}
+	longNames := []string{}
+	if lg != nil {
+		for i, f := range fs {
+			if (lg.idx >= 0 && i != lg.idx) || (f.kind != "str" && f.kind != "bytes") {
+				continue
+			}
+			longf[f.name] = true
+			longNames = append(longNames, f.name)
+			if f.kind == "str" {
+				f.v.SetString(string(longBytes(r, lg.n)))
+			} else {
+				f.v.SetBytes(longBytes(r, lg.n))
+			}
+		}
+	}
+	wsnap := snapshotL(w, longf) // before Write: a writer may normalise its own fields
 	b, msg := writeBytes(w)
 	if msg != "" {
 		t.Emit(core.Ev{"ev": "Panic", "in": "Write", "type": pt.name, "ver": ver, "msg": msg})
 		return
 	}
-	t.Emit(core.Ev{"ev": "W", "type": pt.name, "ver": ver, "w": wsnap, "carried": carried,
-		"caps": capList(pt.name), "bytes": core.Cp(b), "wlen": len(b)})
+	wev := core.Ev{"ev": "W", "type": pt.name, "ver": ver, "w": wsnap, "carried": carried,
+		"caps": capList(pt.name), "wlen": len(b)}
+	if lg != nil {
+		wev["longf"] = longNames
+	} else {
+		wev["bytes"] = core.Cp(b)
+	}
+	t.Emit(wev)
 
 	rd := newPack(pt, ver)
 	if rp, ok := rd.(*udp.UdpRelayPack); ok {
@@ -427,9 +464,9 @@ func roundTrip(c *core.Ctx, t *core.Trace, r *rand.Rand, pt ptype, ver int32, ca
 		t.Emit(core.Ev{"ev": "Panic", "in": "Read", "type": pt.name, "ver": ver, "msg": msg})
 		return
 	}
-	ev := core.Ev{"ev": "R", "r": snapshot(rd), "consumed": len(all) - int(in.Available())}
+	ev := core.Ev{"ev": "R", "r": snapshotL(rd, longf), "consumed": len(all) - int(in.Available())}
 	if msg := core.Guard(func() { rd.Process() }); msg == "" {
-		ev["rp"] = snapshot(rd)
+		ev["rp"] = snapshotL(rd, longf)
 	} else {
 		ev["process_panic"] = msg
 		processPanics[pt.name]++
@@ -484,7 +521,7 @@ func codecHistory(c *core.Ctx, t *core.Trace, gen string, cas int, pt ptype, ver
 		return
 	}
 	for k := 0; k < fills; k++ {
-		roundTrip(c, t, r, pt, ver, carried, r.Intn(25) == 0)
+		roundTrip(c, t, r, pt, ver, carried, r.Intn(25) == 0, nil)
 	}
 	t.Emit(core.Ev{"ev": "End", "n": fills})
 	c.Count(fmt.Sprintf("codec:%s:%d", pt.name, ver), len(carried) > 0)
@@ -907,6 +944,10 @@ func runPool(c *core.Ctx) error {
 		}
 	}
 	c.SetExtra("pool_reacquired_objects", pooledTotal)
+	if err := runFail(c); err != nil {
+		return err
+	}
+	runAlias(c)
 	return nil
 }
 
@@ -1152,16 +1193,20 @@ func runMask(c *core.Ctx) {
 // ---------------------------------------------------------------------- run
 
 func Run(c *core.Ctx) error {
-	c.Rule = "codec: one history per (pack type, version): the carried set is derived from the real writer, then randomly filled packs go through the real Write and the real Read of a pack created at the same version (non-trivial: the version carries at least one field; distinct by type and version); " +
+	c.Rule = "codec: one history per (pack type, version): the carried set is derived from the real writer, then randomly filled packs go through the real Write and the real Read of a pack created at the same version (non-trivial: the version carries at least one field; distinct by type and version); long: every carried text field at lengths around its cap and at 32767/32768/32769/65535 bytes; " +
+		"alias: several packs encoded through every encoder entry point, the returned slices kept, looked at again after every later call and only then read (non-trivial: at least two kept outputs); " +
+		"fail: every pool type fed truncated / mutated / foreign-version datagrams through ToPack and ReadPack between acquires (non-trivial: at least one read failed); " +
 		"pool: acquire/fill/release histories replayed on CreatePack/ClosePack with sentinels in every field (non-trivial: some object came back from the pool); " +
 		"masking: token sequences rendered to connection strings and sent through ToBytesPack/ToPack of the SQL, SQL-param and DB-connection packs at Go and PHP versions (non-trivial: a password key is present)"
-	gens := map[string]string{"gate": "codec", "rand": "codec", "each": "pool", "hist": "pool", "hist2": "pool", "enum": "mask", "rnd": "mask"}
+	gens := map[string]string{"gate": "codec", "rand": "codec", "long": "codec", "each": "pool", "hist": "pool", "hist2": "pool",
+		"alias": "pool", "fail": "pool", "failr": "pool", "enum": "mask", "rnd": "mask"}
 	part := gens[c.OnlyGen]
 	if c.OnlyGen != "" && part == "" && !strings.HasPrefix(c.OnlyGen, "kf_") {
 		return fmt.Errorf("unknown gen %q", c.OnlyGen)
 	}
 	if part == "" || part == "codec" {
 		runCodec(c)
+		runLong(c)
 	}
 	if part == "" || part == "pool" {
 		if err := runPool(c); err != nil {
